@@ -155,8 +155,10 @@ def St.setFn (s : St) (f : Nat) : St × Out :=
   else
     (ps.foldl (fun s p => s.addUninit ⟨.glob p.2, some p.1, .user⟩) s, .uninit)
 
-/-- `set_breakpoint_at_addr` while the debuggee runs, for the runtime address `a` meant to be the place of `f` in `o` -/
+/-- `set_breakpoint_at_addr` for the runtime address `a` meant to be the place of `f` in `o` -/
 def St.setAddr (s : St) (f o a : Nat) : St × Out :=
+  -- not running: `add_uninit(UninitBreakpoint::new(None, Address::Relocated(addr), ..))`
+  if s.status != .inProgress then (s.addUninit ⟨.rel a, none, .user⟩, .uninit) else
   match s.reg.objOfAddr a, s.reg.intoGlobal a with
   | some o', some g =>
     -- `find_place_from_pc`: there is a line-table place iff the global address really is the place of `f` in that object
